@@ -43,6 +43,7 @@ func vfEnvInt(name string, def int) int {
 	return def
 }
 func vfSeed() uint64 { return uint64(vfEnvInt("VERIF_SEED", 1)) }
+func vfPropEnv() string { return os.Getenv("VF_PROP") }
 
 // signed values are written with an offset so that Coq reads them as Uint63
 const vfOff = int64(1) << 62
